@@ -145,7 +145,7 @@ def _resolve_fname(example_fname='!data/example.gb'):
     """
     def wrapper(reader):
         @wraps(reader)
-        def new_reader(fname=None, *args, archive=None, **kw):
+        def new_reader(fname=None, *args, archive=None, _isglob=True, **kw):
             # if isinstance(fname, io.StringIO):
             #     msg = 'fname must be string, Path object or io.BytesIO object'
             #     raise ValueError(msg)
@@ -183,12 +183,13 @@ def _resolve_fname(example_fname='!data/example.gb'):
                     else:
                         # fl = io.StringIO(r.text)  # download is just data
                         fl = io.BytesIO(r.content)  # download is just data
-                elif glob.has_magic(fname):  # it's a glob expression
+                elif _isglob and glob.has_magic(fname):  # it's a glob expression
                     fnames = glob.glob(fname, recursive=True)
                     if not fnames:
                         raise IOError(f'No file matching glob pattern {fname}')
                     # run function with all individual files
-                    objs = [new_reader(fname, *args, archive=archive, **kw) for fname in fnames]
+                    # the matched names are file names, even if they contain *, ? or [
+                    objs = [new_reader(fname, *args, archive=archive, _isglob=False, **kw) for fname in fnames]
                     if isinstance(objs[0], (BioBasket, FeatureList)):  # read or read_fts was wrapped
                         return reduce(operator.add, objs)
                     else:  # iter_ was wrapped
